@@ -107,6 +107,7 @@ type tSink struct {
 type tSummary struct {
 	mut *tSink // first mutation through the parameter
 	esc *tSink // first escape of the parameter into foreign memory
+	rec *tSink // first in-place write of an element of a query.Record reached through the parameter
 	ret map[int]tk
 }
 
@@ -117,6 +118,9 @@ func (s *tSummary) sig() string {
 	}
 	if s.esc != nil {
 		x += "E"
+	}
+	if s.rec != nil {
+		x += "R"
 	}
 	var ks []int
 	for k := range s.ret {
@@ -277,13 +281,15 @@ type taintRun struct {
 	work  []ssa.Value
 	muts  []tSink
 	escs  []tSink
+	recs  []tSink // in-place writes of Record elements (subset of muts, kept separately)
+	seenR map[ssa.Instruction]bool
 	rets  map[int]tk
 	home  *ssa.Function
 	seenS map[ssa.Instruction]bool
 }
 
 func (e *taintEngine) newRun(home *ssa.Function) *taintRun {
-	return &taintRun{e: e, vals: map[ssa.Value]tk{}, cells: map[ssa.Value]tk{}, rets: map[int]tk{}, home: home, seenS: map[ssa.Instruction]bool{}}
+	return &taintRun{e: e, vals: map[ssa.Value]tk{}, cells: map[ssa.Value]tk{}, rets: map[int]tk{}, home: home, seenS: map[ssa.Instruction]bool{}, seenR: map[ssa.Instruction]bool{}}
 }
 
 func (r *taintRun) push(v ssa.Value, k tk) {
@@ -303,6 +309,20 @@ func (r *taintRun) mut(in ssa.Instruction, what string, callee *ssa.Function) {
 	}
 	r.seenS[in] = true
 	r.muts = append(r.muts, tSink{in, what, callee})
+}
+
+// recWrite notes that an element of a query.Record belonging to the tainted
+// object is (or, for append within capacity, may be) written in place.
+func (r *taintRun) recWrite(in ssa.Instruction, what string, callee *ssa.Function) {
+	if r.seenR[in] {
+		return
+	}
+	r.seenR[in] = true
+	r.recs = append(r.recs, tSink{in, what, callee})
+}
+
+func isRecordSlice(t types.Type) bool {
+	return isQueryNamed(t, "Record") && !isPtr(t)
 }
 
 func (r *taintRun) esc(in ssa.Instruction, what string, callee *ssa.Function) {
@@ -577,6 +597,9 @@ func (r *taintRun) use(v ssa.Value, k tk, u ssa.Instruction) {
 		if x.Addr == v {
 			if k == tkRaw {
 				r.mut(x, "store to "+addrDesc(x.Addr), nil)
+				if ia, ok := v.(*ssa.IndexAddr); ok && isRecordSlice(ia.X.Type()) {
+					r.recWrite(x, "store into an element of a record", nil)
+				}
 			}
 			return
 		}
@@ -664,6 +687,9 @@ func (r *taintRun) call(v ssa.Value, k tk, c ssa.CallInstruction) {
 			if len(com.Args) > 0 && com.Args[0] == v {
 				if k == tkRaw {
 					r.mut(in, "append to a slice of the object (may write its backing array)", nil)
+					if isRecordSlice(v.Type()) {
+						r.recWrite(in, "append to a record (writes its backing array within capacity)", nil)
+					}
 				}
 				if cv, ok := c.(ssa.Value); ok {
 					r.push(cv, k)
@@ -676,6 +702,9 @@ func (r *taintRun) call(v ssa.Value, k tk, c ssa.CallInstruction) {
 		case "copy":
 			if len(com.Args) == 2 && com.Args[0] == v && k == tkRaw {
 				r.mut(in, "copy into a slice of the object", nil)
+				if isRecordSlice(v.Type()) {
+					r.recWrite(in, "copy into a record", nil)
+				}
 			}
 			if len(com.Args) == 2 && com.Args[1] == v {
 				if sl, ok := v.Type().Underlying().(*types.Slice); ok && followType(sl.Elem()) {
@@ -734,6 +763,9 @@ func (r *taintRun) call(v ssa.Value, k tk, c ssa.CallInstruction) {
 				// for a carrier the callee's store may hit the fresh shell only; without a
 				// depth notion the conservative answer is "mutates"
 				r.mut(in, fmt.Sprintf("passed to %s, which changes it (%s at %s)", p.FnRef(f), s.mut.what, p.InstrPos(s.mut.in)), f)
+			}
+			if s.rec != nil && k == tkRaw {
+				r.recWrite(in, fmt.Sprintf("passed to %s, which writes record elements in place (%s at %s)", p.FnRef(f), s.rec.what, p.InstrPos(s.rec.in)), f)
 			}
 			if s.esc != nil {
 				r.esc(in, fmt.Sprintf("passed to %s, which keeps it (%s at %s)", p.FnRef(f), s.esc.what, p.InstrPos(s.esc.in)), f)
@@ -878,6 +910,10 @@ func (e *taintEngine) computeSummary(key sumKey) *tSummary {
 	if len(r.escs) > 0 {
 		x := r.escs[0]
 		s.esc = &x
+	}
+	if len(r.recs) > 0 {
+		x := r.recs[0]
+		s.rec = &x
 	}
 	for i, k := range r.rets {
 		s.ret[i] = k
